@@ -59,7 +59,7 @@ func genC13(g GenCtx) interface{} {
 		// a list fails: the controller stops (C14) - or, if it does not, it must
 		// not sit there alive without ever listing again
 		sc.FailAt = 1 + rng.Intn(sc.Periods)
-		sc.FailKind = pick(rng, "error", "error-with-list", "error-with-full-list", "error-timeout", "error-canceled", "error-canceled-bare", "error-deadline-bare")
+		sc.FailKind = pick(rng, "error", "error-with-list", "error-with-full-list", "error-timeout", "error-canceled", "error-canceled-bare", "error-deadline-bare", "error-notrunning", "error-notrunning-wrapped")
 	}
 	// consumption delay: the controller loop / lister / ticker starved by a drawn factor
 	sc.Sim = SimCfg{Strategy: randStrategy(rng, []string{"Create>c.run", "newLister>l.run", "newTicker>t.run", "_lister.list>func", "newCache>c.run"}),
